@@ -21,6 +21,8 @@ EXTRA = {
     "C18-m2": ["C11"], "C18-m3": ["C10"], "C20-m3": ["C18"],
     # second wave
     "C03-m4": ["C11"], "C06-m4": ["C18", "C09"], "C06-m6": ["C07"], "C07-m6": ["C12"], "C13-m6": ["C02"],
+    "C05-m6": ["C06", "C09", "C07"], "C08-m5": ["C17"], "C08-m6": ["C04"], "C11-m5": ["C19"], "C15-m4": ["C04"],
+    "C15-m5": ["C04", "C03"], "C15-m6": ["C03"], "C20-m6": ["C18"],
 }
 # changes that no longer apply to /repo because the defect they relied on was repaired in the meantime
 SUPERSEDED = {
